@@ -1282,7 +1282,9 @@ func (f *Field) importValue(columnIDs []uint64, values []int64, options *ImportO
 			baseValues[i] = value - bsig.Base
 		}
 
-		if err := frag.importValue(data.ColumnIDs, baseValues, requiredDepth, options.Clear); err != nil {
+		// Write every bit plane the field has, not only those this batch needs: a smaller value
+		// imported over a larger one must clear the larger one's high bits.
+		if err := frag.importValue(data.ColumnIDs, baseValues, bsig.BitDepth, options.Clear); err != nil {
 			return err
 		}
 	}
